@@ -181,8 +181,20 @@ def spell(j):
 
 
 # ---------- observation ----------
+_nforge = [0]
+
+
 def impl_forge(j):
     from pytezos.michelson.forge import forge_micheline
+    _nforge[0] += 1
+    if _nforge[0] % 3 == 0:
+        # a call that fails half-way (a malformed node deep inside a well-formed expression) leaves nothing behind for the next call
+        for bad in ({'prim': 'Pair', 'args': [{'int': '7'}, {'prim': 'Pair', 'args': [{'string': 'x'}, {'bytes': 'abc'}]}]},
+                    [{'int': '1'}, {'prim': 'Pair', 'args': [{'int': '2'}, {'int': 'two'}]}]):
+            try:
+                forge_micheline(bad)
+            except Exception:   # noqa
+                pass
     try:
         return ('ok', forge_micheline(j))
     except Exception as e:   # noqa
